@@ -214,6 +214,10 @@ func (it *Interp) step(t []string, op string) string {
 			opts = append(opts, sentinel.WithArgs(int(vh.U(t[3]))))
 		}
 		e, b := sentinel.Entry(resName(vh.U(t[1])), opts...)
+		if len(t) > 4 {
+			// the request takes that long (refused or not, so that both phases keep the same clock); the clock stays there
+			it.clk.ns += vh.U(t[4]) * 1e6
+		}
 		if b != nil {
 			id := "-"
 			switch r := b.TriggeredRule().(type) {
